@@ -46,6 +46,21 @@ def oracle(acc, text, case, kern_only_opts):
         return
     if list(doc) != list(range(1, M + 1)):
         acc.violation(Viol('iteration', 'does-not-yield-1-to-M', case, list(range(1, M + 1)), list(doc)))
+    # two iterations alive at once, an abandoned one, and iteration again afterwards
+    try:
+        import itertools
+        it1, it2 = iter(doc), iter(doc)
+        first = next(it1)
+        second_all = list(itertools.islice(it2, M + 3))
+        rest = list(itertools.islice(it1, M + 3))
+        import itertools
+        nested = list(itertools.islice(((x, y) for x in doc for y in doc), M * M + 3))
+        again = list(itertools.islice(iter(doc), M + 3))
+        exp_all = list(range(1, M + 1))
+        if first != 1 or second_all != exp_all or rest != exp_all[1:] or nested != [(x, y) for x in exp_all for y in exp_all] or again != exp_all:
+            acc.violation(Viol('iteration', 'concurrent-or-abandoned-iterations-interfere', case, exp_all, [first, second_all, rest, again]))
+    except Exception as e:  # noqa
+        acc.violation(Viol('iteration', 'raises', case, None, f'{type(e).__name__}: {str(e)[:80]}'))
     if M not in (n, n + 1) or (runs[0] and M != n + 1):
         acc.violation(Viol('measure-count', 'inconsistent-with-barlines', case, f'{n} barline rows, pickup={bool(runs[0])}', M))
         return
@@ -167,7 +182,7 @@ def run(ctx):
     ctx.bounds = {'sequence_length': '5/4/4/3 (quick) 6/5/5/4 (thorough) for 1/2/2/3 spines', 'deviations_k': 2 if ctx.quick else 3}
     ctx.assumptions = ['a data line = a line none of whose cells starts with * ! or =; the oracle is indifferent to whether an empty leading measure is numbered']
     jobs = jobs_for(ctx.tier, ctx.seed)
-    jobs += [(j[0], j[1], j[2], 1 + k % 4) for k, j in enumerate(jobs) if k % 7 == 0 and ('J0' in j[1] or 'S0' in j[1])]   # blank-line variants
+    jobs += [(j[0], j[1], j[2], 1 + k % 4) for k, j in enumerate(jobs) if k % 7 == 0]   # blank-line variants
     longs = D.long_kern_docs(ctx.seed) + [(['**kern', '**text'], j[1], ctx.seed) for j in D.long_kern_docs(ctx.seed, reps=(4,))[:1]]
     ctx.pmap(_job, [[j] for j in longs] + list(X.chunks(jobs, 100)), chunksize=1)
 
